@@ -10,6 +10,8 @@ let rec parse_ops toks = match toks with
   | "wire" :: n :: r -> SWire (nat_of_int (int_of_string n)) :: parse_ops r
   | "recv" :: r -> SRecv :: parse_ops r
   | "drain" :: r -> SDrain :: parse_ops r
+  | "peek" :: n :: r -> SPeek (nat_of_int (int_of_string n), true) :: parse_ops r
+  | "peekn" :: n :: r -> SPeek (nat_of_int (int_of_string n), false) :: parse_ops r
   | "dump" :: r -> parse_ops r
   | t :: _ -> failwith ("bad op " ^ t)
 let hexm m = if m = [] then "E" else hex_of_bytes m
@@ -32,7 +34,13 @@ let show_m o = match o with
   | None -> "F"
   | Some s ->
     let msgs = if s.so_got = [] then "-" else String.concat "," (List.map hexm s.so_got) in
-    let st = match s.so_stat with PSOk -> "ok" | PSFail c -> "fail" ^ string_of_int (int_of_z c) in
+    let errno e = match e with
+      | BadArgument -> -1 | BadValue -> -2 | BadType -> -3 | BadOperation -> -4 | BadEncoding -> -8
+      | MissingData -> -16 | MissingBuffer -> -17 | ERange -> -34 | EInval -> -22 in
+    let st = match s.so_stat with PSOk -> "ok" | PSFail c -> "fail" ^ string_of_int (int_of_z c)
+      | PSPeek (rc, data) ->
+        "ok~K" ^ (match rc with EInt n -> string_of_int (int_of_nat n) | EErr e -> string_of_int (errno e) | EFault -> "F")
+        ^ ":" ^ hex_of_bytes data in
     msgs ^ "|" ^ st ^ "#" ^ show_w s.so_w ^ "#" ^ show_r s.so_r
 let variant i = match i with 0 -> v_cobs | 1 -> v_cobs_r | 2 -> v_zpe | _ -> v_zpe_r
 let () =
